@@ -377,7 +377,11 @@ func Flush(property string) {
 	}
 	sort.Slice(st.Sigs, func(i, j int) bool { return st.Sigs[i] < st.Sigs[j] })
 	b, _ := json.Marshal(st)
-	_ = os.WriteFile(filepath.Join(OutDir(), fmt.Sprintf("stats-%d.json", Shard())), b, 0o644)
+	id := Shard()
+	if v := envInt("VERIF_STATS_ID", -1); v >= 0 {
+		id = int(v)
+	}
+	_ = os.WriteFile(filepath.Join(OutDir(), fmt.Sprintf("stats-%d.json", id)), b, 0o644)
 }
 
 // LoadReplay reads the "case" member of a failure file into v.
